@@ -696,7 +696,9 @@ fn take() -> RunResult {
         let cap = sim::range("bufreader.cap", 1, 16) as usize;
         let mut t = BufReader::with_capacity(cap, src.clone()).take(limit);
         let mut out = Vec::new();
-        for _ in 0..400 {
+        // at most 3 consecutive Pending and a finite run of Interrupted per byte: this bound is never the limit
+        for round in 0.. {
+            check!(round < 200_000, "step-bound", "take(BufReader) does not reach EOF");
             let res = bounded(t.fill_buf())?;
             match res {
                 Ok(b) if b.is_empty() => break,
